@@ -118,6 +118,20 @@ class CleanShutdownQueue(asyncio.Queue[QueueEntryType]):
                     pass
                 raise
 
+    def queued_items(self) -> list[QueueEntryType]:
+        """Snapshot of the items currently waiting in the queue, in order."""
+        return list(self._queue)  # type: ignore[attr-defined]
+
+    def remove_item(self, item: QueueEntryType) -> bool:
+        """Remove a specific queued item (first occurrence). The caller must still call task_done() for it."""
+        queue: deque[QueueEntryType] = self._queue  # type: ignore[attr-defined]
+        for index, queued_item in enumerate(queue):
+            if queued_item is item:
+                del queue[index]
+                self._wakeup_next(self._putters)  # type: ignore[attr-defined]
+                return True
+        return False
+
     async def put(self, item: QueueEntryType) -> None:
         """Put an item into the queue, with shutdown support."""
         while self.full():
